@@ -11,7 +11,8 @@ Three independent evaluations per run:
          positives = targets whose defining-formula q-value under the scores the estimator itself
          just returned for them is <= train_fdr; invariance of outcome/weights/predictions over input
          row order, shuffle switch and seed; prediction by name; save/load identity; fit-call count
-  model  the compiled Lean model (`fitmodel`, cross-checked against `fitspec`, `predictbyname`, `argsort`)
+  model  the compiled Lean model (`fitmodel`, cross-checked against `fitspec`, `predictbyname`, `argsort`;
+         `fitcv` / `cvexamples` for the hyper-parameter search step)
 """
 from __future__ import annotations
 
@@ -1012,7 +1013,7 @@ def refit_cases(chk, rng, count):
 # ----------------------------------------------------------------------------
 class _CvSpy(BaseEstimator):
     """order-insensitive recording estimator for the hyper-parameter search path (GridSearchCV clones it,
-    so the log is a module global keyed by `log_id`)"""
+    so the log is a module global keyed by `log_id`); `decision_function` = feature 1 (driver kind `col1`)"""
     LOGS = {}
 
     def __init__(self, C=1.0, log_id=0):
@@ -1021,24 +1022,70 @@ class _CvSpy(BaseEstimator):
 
     def fit(self, X, y):
         _CvSpy.LOGS.setdefault(self.log_id, []).append(
-            (np.asarray(X)[:, 0].astype(int).tolist(), np.asarray(y).astype(int).tolist()))
+            ("fit", np.asarray(X)[:, 0].astype(int).tolist(), np.asarray(y).astype(int).tolist(), id(self), self.C))
         self.classes_ = np.array([0, 1])
         return self
 
     def decision_function(self, X):
+        _CvSpy.LOGS.setdefault(self.log_id, []).append(("score", np.asarray(X)[:, 0].astype(int).tolist()))
         return np.asarray(X)[:, 1].astype(float)
 
     def score(self, X, y):
         return 0.0
 
 
+CV_THR = Fraction(1, 4)
+
+
+def cv_examples_py(shuffle, perm, ids, labels, needs_cv):
+    """direct re-statement of what the search must be given: the labelled PSMs in the applied order,
+    each with the class of its own label"""
+    if not needs_cv:
+        return []
+    order = perm if shuffle else range(len(ids))
+    return [[(ids[j], 1.0 if labels[j] == 1 else 0.0) for j in order if labels[j] != 0]]
+
+
+def cvexamples_sweep(chk, rng, count):
+    """driver op `cvexamples` (the model's `fitLoopCv … .searches`) against the re-statement, any label vector"""
+    lines, want = [], []
+    for _ in range(count):
+        n = rng.randrange(0, 9)
+        ids = [rng.randrange(100) for _ in range(n)]
+        labels = [rng.choice([-1, 0, 1]) for _ in range(n)]
+        perm = list(range(n))
+        rng.shuffle(perm)
+        sh, cv = rng.random() < 0.6, rng.random() < 0.8
+        lines.append(req("cvexamples", sh, perm, ids, labels, cv))
+        want.append((cv_examples_py(sh, perm, ids, labels, cv), dict(shuffle=sh, perm=perm, ids=ids, labels=labels,
+                                                                    needs_cv=cv)))
+    for r, (w, info) in zip(common.driver_batch(lines), want):
+        v = dec(r)
+        got = [[(int(a_rat(p[0])), 1.0 if a_bool(p[1]) else 0.0) for p in ex] for ex in v] if isinstance(v, list) \
+            else "driver:" + r[:60]
+        chk.case(None, None)
+        chk.count("cvexamples", f"n={len(info['ids'])}")
+        if got != w:
+            chk.corr_break("cvexamples", dict(case=info, restated=w, model=got))
+
+
 def hyperparameter_cases(chk, rng, count):
-    """`_find_hyperparameters` (a BaseSearchCV estimator, as PercolatorModel uses) also calls estimator.fit:
-    every row handed to ANY fit call must carry the label of its own PSM (1 = accepted target, 0 = decoy)"""
+    """`_find_hyperparameters` (a BaseSearchCV estimator, as PercolatorModel uses) also calls estimator.fit.
+
+    spec (independent of the model): every row handed to ANY fit call carries the label of its own PSM
+    (0 = decoy, 1 = target), no PSM twice in one call, and the positives of the search are the targets
+    accepted at train_fdr by one feature in one direction (the start labels).
+    model (`fitcv`): GridSearchCV fits CV folds — subsets — so the comparison is by multiset: every search-phase
+    call is drawn from the model's example list, the k fold-calls of one parameter setting together are exactly
+    (k-1) copies of it, a refit call (refit=True) is the list itself in order; all search calls come before the
+    first loop fit; the loop calls, the status and `_needs_cv` afterwards equal the model's."""
     import mokapot
+    from collections import Counter
     from mokapot.dataset import LinearPsmDataset
     from sklearn.model_selection import GridSearchCV, KFold
 
+    cvexamples_sweep(chk, rng, 5 * count)
+    runs = []
     for _ in range(count):
         n = rng.choice([40, 80, 150])
         rs = np.random.default_rng(rng.randrange(1 << 30))
@@ -1049,32 +1096,119 @@ def hyperparameter_cases(chk, rng, count):
                            "rowid": np.arange(n, dtype=float), "f0": f0.astype(float)})
         log_id = rng.randrange(1 << 30)
         shuffle = rng.random() < 0.7
-        est = GridSearchCV(_CvSpy(log_id=log_id), {"C": [0.1, 1.0]}, cv=KFold(2), refit=False)
-        model = mokapot.Model(est, scaler="as-is", train_fdr=0.25, max_iter=2, shuffle=shuffle,
+        needs_cv = rng.random() < 0.8
+        kf = rng.choice([2, 2, 3])
+        refit = rng.random() < 0.5
+        grid = [0.1, 1.0]
+        max_iter = rng.choice([1, 2, 2])
+        if needs_cv:
+            est = GridSearchCV(_CvSpy(log_id=log_id), {"C": grid}, cv=KFold(kf), refit=refit)
+        else:
+            est = _CvSpy(log_id=log_id)
+        model = mokapot.Model(est, scaler="as-is", train_fdr=float(CV_THR), max_iter=max_iter, shuffle=shuffle,
                               rng=rng.randrange(1000), override=True)
+        inner = id(model.estimator.estimator if needs_cv else model.estimator)
         ds = LinearPsmDataset(df, target_column="t", spectrum_columns="spec", peptide_column="pep",
                               feature_columns=["rowid", "f0"])
+        info = dict(n=n, shuffle=shuffle, needs_cv=needs_cv, kfold=kf, refit=refit, max_iter=max_iter)
         try:
             model.fit(ds)
-        except Exception as e:
-            chk.reject("hyperparameter-fit-failed:" + type(e).__name__)
-            _CvSpy.LOGS.pop(log_id, None)
-            continue
-        calls = _CvSpy.LOGS.pop(log_id, [])
-        bad = 0
+            status = "ok"
+        except Exception as e:  # noqa: BLE001
+            status = classify_exc(e)
+            if status.startswith("other:"):
+                chk.reject("hyperparameter-fit-failed:" + type(e).__name__)
+                _CvSpy.LOGS.pop(log_id, None)
+                continue
+        events = _CvSpy.LOGS.pop(log_id, [])
+        fits = [ev for ev in events if ev[0] == "fit"]
+        calls = [(ev[1], ev[2]) for ev in fits]
+        search_calls = [ev for ev in fits if ev[3] != inner]
+        loop_calls = [ev for ev in fits if ev[3] == inner]
+        chk.case(None, ("cv", log_id), sample=dict(hyperparameter_search=needs_cv, fit_calls=len(calls), **info))
+        chk.count("hyperparameter-search", f"needs_cv={needs_cv},shuffle={shuffle},refit={refit},k={kf}")
+        # ---- spec, independent of the model -------------------------------------------------
+        bad = dup = 0
         for ids, ys in calls:
+            dup += len(ids) - len(set(ids))
             for i, y in zip(ids, ys):
-                if (y == 0) != (not target[i]):
+                if (y == 0) != (not target[i]) or y not in (0, 1):
                     bad += 1
-        chk.case(None, ("cv", log_id), sample=dict(hyperparameter_search=True, n=n, shuffle=shuffle,
-                                                   fit_calls=len(calls)))
-        chk.count("hyperparameter-search", f"shuffle={shuffle}")
-        if bad:
+        if bad or dup:
             chk.spec_violation("cv-fit-misaligned",
-                               dict(n=n, shuffle=shuffle, misaligned_rows=bad, fit_calls=len(calls),
+                               dict(misaligned_rows=bad, repeated_rows=dup, fit_calls=len(calls),
                                     clause="the hyper-parameter search was fitted on feature rows paired with "
-                                           "labels of other PSMs"))
+                                           "labels of other PSMs", **info))
             return
+        if search_calls:
+            got_pos = {i for ev in search_calls for i, y in zip(ev[1], ev[2]) if y == 1}
+            tl = [bool(t) for t in target]
+            ok = False
+            for col in ([Fraction(i) for i in range(n)], [Fraction(int(v)) for v in f0]):
+                for sign in (1, -1):
+                    if accepted([sign * c for c in col], tl, CV_THR)[0] == got_pos:
+                        ok = True
+            if not ok:
+                chk.spec_violation("cv-positives-start",
+                                   dict(positives=sorted(got_pos)[:40], fit_calls=len(calls),
+                                        clause="the positives handed to the hyper-parameter search are not the "
+                                               "targets accepted at train_fdr by any feature in any direction "
+                                               "(the start labels of the same PSMs)", **info))
+                return
+        # ---- the model ----------------------------------------------------------------------
+        perm = next((ev[1] for ev in events if ev[0] == "score"), list(range(n)))
+        rows = [[i, int(f0[i])] for i in range(n)]
+        line = req("fitcv", Atom("col1"), shuffle, perm, max_iter, CV_THR, True, [], rows, [bool(t) for t in target],
+                   needs_cv)
+        runs.append((line, info, status, events, fits, search_calls, loop_calls, inner, kf, refit, len(grid),
+                     bool(model._needs_cv)))
+    for r, run in zip(common.driver_batch([x[0] for x in runs]), runs):
+        _, info, status, events, fits, search_calls, loop_calls, inner, kf, refit, ngrid, flag = run
+        v = dec(r)
+        if not isinstance(v, list) or len(v) != 5:
+            chk.corr_break("fitcv", dict(case=info, model="driver:" + r[:80]))
+            continue
+        pairs = lambda ex: [(int(a_rat(p[0])), 1 if a_bool(p[1]) else 0) for p in ex]  # noqa: E731
+        m_status = "reject-worse" if v[0] in ("reject-worse-iter", "reject-worse-final") else v[0]
+        m_trace = [pairs(ex) for ex in v[1]]
+        m_search = [pairs(ex) for ex in v[3]]
+        m_flag = a_bool(v[4])
+        why = None
+        impl_loop = [list(zip(ev[1], ev[2])) for ev in loop_calls]
+        if status != m_status:
+            why = f"status impl={status} model={m_status}"
+        elif impl_loop != m_trace:
+            why = "loop fit calls differ"
+        elif flag != m_flag:
+            why = f"_needs_cv afterwards impl={flag} model={m_flag}"
+        elif len(m_search) != (1 if search_calls else 0):
+            why = f"search ran {len(search_calls)} estimator fits, model has {len(m_search)} search calls"
+        elif search_calls:
+            M = m_search[0]
+            cm = Counter(M)
+            nfold = kf * ngrid
+            first_loop = next((j for j, ev in enumerate(fits) if ev[3] == inner), len(fits))
+            if any(ev[3] != inner for ev in fits[first_loop:]):
+                why = "a search fit call comes after the first loop fit"
+            elif len(search_calls) != nfold + (1 if refit else 0):
+                why = f"{len(search_calls)} search fit calls, expected {nfold}+{int(refit)}"
+            else:
+                for ev in search_calls:
+                    if Counter(zip(ev[1], ev[2])) - cm:
+                        why = "a search fit call contains an example that is not in the model's example list"
+                by_c = {}
+                for ev in search_calls[:nfold]:
+                    by_c.setdefault(ev[4], Counter()).update(zip(ev[1], ev[2]))
+                want = Counter({k: c * (kf - 1) for k, c in cm.items()})
+                if why is None and (len(by_c) != ngrid or any(u != want for u in by_c.values())):
+                    why = "the CV-fold fit calls of one parameter setting do not add up to the model's example multiset"
+                if why is None and refit and list(zip(search_calls[-1][1], search_calls[-1][2])) != M:
+                    why = "the full-data refit call differs from the model's example list"
+        if why:
+            chk.corr_break("fitcv", dict(case=info, why=why, impl_status=status,
+                                         impl_search=_short([list(zip(ev[1], ev[2])) for ev in search_calls]),
+                                         model_search=_short(m_search), impl_loop=_short(impl_loop),
+                                         model_loop=_short(m_trace)))
 
 
 def seeds_for_perms(n):
@@ -1239,8 +1373,13 @@ def main(chk, args):
         "predictions, same file from save_model and Model.save)",
         "scaler='as-is' in the exact runs; StandardScaler only in the sklearn runs (scaling is a per-column affine "
         "map fitted before shuffling and is not part of this property)",
-        "hyper-parameter search (_find_hyperparameters with a BaseSearchCV estimator, PercolatorModel) is outside the "
-        "Lean model; its estimator.fit calls are checked by the alignment oracle only (hyperparameter_cases); re-fitting a trained model is modelled (refitModel) with the scaler taken as a per-column map that "
+        "hyper-parameter search (_find_hyperparameters with a BaseSearchCV estimator, PercolatorModel) is modelled as a "
+        "black-box function of the example list it is given (fitLoopCv / fitModelCv, theorems C12_search_*); what "
+        "GridSearchCV does with the examples (CV splitter, scoring, refit) is not modelled: its fold-fit calls are "
+        "compared with the model's example list as multisets (KFold: the k fold-calls of one parameter setting add "
+        "up to k-1 copies) and by the alignment oracle (hyperparameter_cases); shuffle-invariance of the chosen "
+        "parameters is proved for searches that ignore the order of their examples (an un-shuffled KFold does not)",
+        "re-fitting a trained model is modelled (refitModel) with the scaler taken as a per-column map that "
         "commutes with column selection (IntScaler in the harness)",
         "feature values are small integers so that every estimator sum/product is exact in float64; q-value "
         "threshold comparisons at an exact decimal boundary are tallied as float_boundary_cases and skipped",
